@@ -1,5 +1,6 @@
 import H2.Client.Recv
 import H2.Proofs.HpackEnc
+import H2.Proofs.ClientRunCount
 /-!
 # C18 (client half) — SETTINGS are acknowledged one for one and the server's limits persist
 
@@ -327,5 +328,79 @@ theorem encode_zero_iff_marked (id : Nat) (has : Bool) :
 example : ∃ c f s, f.stream = 0 ∧ f.body = Frame.Body.settings s ∧ s.ack = false ∧
     (rdFrame c f).1.outQ = c.outQ ++ [OutFrame.settingsAck] :=
   ⟨{}, ⟨Gen.c_FrameSettings, 0, 0, 0, .settings {}⟩, {}, rfl, rfl, rfl, (acks _ _ _ rfl rfl rfl).1⟩
+
+/-! ## the FULL serial model, every run
+
+NEEDS `import H2.Proofs.ClientRunCount` (which imports `H2.Proofs.ClientRunGoAway`) at the top of this file. `concurrent_streams_obeyed` above is about one call of
+`writeRequest`; here: every step of every run of `H2.Client.step` from the connection the driver creates. -/
+
+section FullModel
+open H2.Client
+
+/-- **Full.concurrent_streams_obeyed**: in any run (any events: requests, server octets with any SETTINGS, time-outs,
+write failures …), whenever a step writes a HEADERS frame, the number of streams open just before the step
+(`openStreams`) is below the `maxStreams` the connection holds at that moment (the last SETTINGS_MAX_CONCURRENT_STREAMS
+the read loop has applied); the step's event is a request and the connection has seen no GOAWAY -/
+theorem Full.concurrent_streams_obeyed (c : Conn) (h : Init c) (evs : List Event) :
+    AllSteps (fun c e _ o => writesHeaders o = true →
+      c.openStreams < (c.maxStreams : Int) ∧ c.goAway = false ∧ ∃ r, e = .req r) c evs :=
+  headers_within_limit c (init_hinv h) evs
+
+/-- … read at a position of the run: the step after any prefix -/
+theorem Full.concurrent_streams_obeyed_at (c : Conn) (h : Init c) (pre : List Event) (e : Event)
+    (hw : writesHeaders (step (run c pre).1 e).2 = true) :
+    (run c pre).1.openStreams < ((run c pre).1.maxStreams : Int) :=
+  ((Full.concurrent_streams_obeyed c h (pre ++ [e])).at pre hw).1
+
+/-- **Full.counter_covers_table**: in every reachable state the counter `openStreams` is at least the number of streams in
+the table of requests waiting for a response (a stream leaves the table with the counter decremented, or, when its
+request was taken back by its caller first, without; it enters with the counter incremented) -/
+theorem Full.counter_covers_table (c : Conn) (h : Init c) (evs : List Event) :
+    ((run c evs).1.reqQueued.length : Int) ≤ (run c evs).1.openStreams :=
+  run_cnt h evs
+
+/-- **Full.waiting_streams_below_limit**: so, whenever a step of any run writes a HEADERS frame, the streams still waiting
+for their response are fewer than the server's MAX_CONCURRENT_STREAMS as last applied -/
+theorem Full.waiting_streams_below_limit (c : Conn) (h : Init c) (pre : List Event) (e : Event)
+    (hw : writesHeaders (step (run c pre).1 e).2 = true) :
+    (run c pre).1.reqQueued.length < (run c pre).1.maxStreams := by
+  have h1 := Full.concurrent_streams_obeyed_at c h pre e hw
+  have h2 := Full.counter_covers_table c h pre
+  omega
+
+/-- **Full.only_requests_open_streams**: a step that is not a request admitted by `CanOpenStream` writes no HEADERS and
+leaves `nextID` alone; one that is moves `nextID` up by 2 and the HEADERS it writes is its first frame, on the old
+`nextID`, the only HEADERS of the step -/
+theorem Full.only_requests_open_streams (c : Conn) (h : Init c) (pre : List Event) (e : Event) :
+    ((step (run c pre).1 e).1.nextID = (run c pre).1.nextID ∧ writesHeaders (step (run c pre).1 e).2 = false) ∨
+    (∃ r, e = .req r ∧ canOpenStream (run c pre).1 = true ∧ (step (run c pre).1 e).1.nextID = (run c pre).1.nextID + 2 ∧
+      ∀ fs, (step (run c pre).1 e).2 = .frames fs → ∃ rest, fs = wrHeaders (run c pre).1 r :: rest ∧ NoHdr rest) := by
+  have hi := run_hinv (init_hinv h) pre
+  rcases step_frames_spec _ hi.inv hi.outQ e with ⟨hn, hf⟩ | ⟨r, he, hc, _, hn, hf⟩
+  · left
+    refine ⟨hn, ?_⟩
+    cases ho : (step (run c pre).1 e).2 with
+    | frames fs => exact noHdr_any (hf fs ho)
+    | _ => rfl
+  · right; exact ⟨r, he, hc, hn, hf⟩
+
+/-! ### non-vacuity: SETTINGS_MAX_CONCURRENT_STREAMS = 1, two requests -/
+
+def fullReq (tag : String) : ReqSpec :=
+  { tag := tag, method := [71, 69, 84], scheme := [104, 116, 116, 112, 115], host := [104], path := [47], ua := [117],
+    hdrs := [], body := .none }
+
+/-- SETTINGS, MAX_CONCURRENT_STREAMS = 1 -/
+def fullSettings : List Nat := [0, 0, 6, 4, 0, 0, 0, 0, 0, 0, 3, 0, 0, 0, 1]
+
+def fullRun : List Event := [.bytes fullSettings, .req (fullReq "a"), .req (fullReq "b"), .read "b"]
+
+/-- the first request opens a stream (0 open < 1), the second is turned away: no HEADERS, `ErrNotAvailableStreams` -/
+example : (run {} fullRun).2.map writesHeaders = [false, true, false, false] ∧
+    (run {} (fullRun.take 1)).1.maxStreams = 1 ∧ (run {} (fullRun.take 1)).1.openStreams = 0 ∧
+    (run {} (fullRun.take 2)).1.openStreams = 1 ∧
+    (getReq (run {} (fullRun.take 3)).1 "b").map (·.errBuf) = some (some .noStreams) := by decide +kernel
+
+end FullModel
 
 end H2.Props.C18c
